@@ -388,6 +388,17 @@ def closure_problems(db, enum_vectors=None, check_consecutive=True):
                 if f is not None and f["class"] != sowner[si]:
                     probs.append("make_seq %d of type %d: %s %d belongs to class %d"
                                  % (si, sowner[si], g, s[g], f["class"]))
+    # --- wrapper names (the symbols the code must define): pairwise distinct identifiers
+    wn = {}
+    for wi, w in wr.items():
+        n = w["name"]
+        if n == "":
+            continue
+        if not _IDENT.match(n):
+            probs.append("wrapper %d name %r is not an identifier" % (wi, n))
+        if n in wn:
+            probs.append("wrappers %d and %d share the name %s" % (wn[n], wi, n))
+        wn[n] = wi
     # --- unique names
     un = {}
     for wi, w in wr.items():
